@@ -1,9 +1,253 @@
-//! STUB component for viot -- to be written
+//! component 19: VIOT.  Case vocabulary documented in coq/theories/Spec/ViotS.v.
 use crate::sx::*;
+use crate::tcommon::*;
 use crate::Emit;
+use acpi_tables::viot::*;
+use acpi_tables::Aml;
 
-pub fn run(_case: &Sx, _out: &mut Vec<Ev>) {
-    panic!("harness: component viot not implemented")
+/// TranslationHandle is opaque: embed it in a throw-away MmioEndpoint and read the output-node field back
+fn handle_value(h: &TranslationHandle) -> u64 {
+    let mut v = Vec::new();
+    MmioEndpoint::new(0, 0, h).to_aml_bytes(&mut v);
+    u16::from_le_bytes([v[16], v[17]]) as u64
 }
 
-pub fn gen(_tier: &str, _rng: &mut Rng, _emit: &mut Emit) {}
+fn pci(x: &Sx) -> PciDevice {
+    let d = x.list();
+    PciDevice::new(d[0].num() as u16, d[1].num() as u8, d[2].num() as u8, d[3].num() as u8)
+}
+
+fn href<'a>(x: &Sx, handles: &'a [Option<TranslationHandle>]) -> &'a TranslationHandle {
+    let r = x.list();
+    if r.len() != 2 || r[0].num() != 104 {
+        panic!("harness: bad handle reference");
+    }
+    match handles.get(r[1].num() as usize) {
+        Some(Some(h)) => h,
+        _ => panic!("harness: reference to an op that returned no TranslationHandle"),
+    }
+}
+
+pub fn run(case: &Sx, out: &mut Vec<Ev>) {
+    let c = case.list();
+    let ctor = c[0].list();
+    let (oem, tbl, rev) = hdr_args(ctor);
+    let mut t = VIOT::new(oem, tbl, rev);
+    let mut handles: Vec<Option<TranslationHandle>> = Vec::new();
+    for op in &c[1..] {
+        if let Sx::A(_) = op {
+            out.push(image(&t));
+            continue;
+        }
+        let o = op.list();
+        let n = |i: usize| o[i].num();
+        match n(0) {
+            1 => {
+                let node = PciRange::new(pci(&o[1]), pci(&o[2]), href(&o[3], &handles));
+                t.add_pci_range(node);
+                handles.push(None);
+                out.push(Ev::Num(0));
+            }
+            2 => {
+                let node = MmioEndpoint::new(n(1) as u32, n(2), href(&o[3], &handles));
+                t.add_mmio_endpoint(node);
+                handles.push(None);
+                out.push(Ev::Num(0));
+            }
+            3 => {
+                let h = t.add_virtio_pci_iommu(VirtIoPciIommu::new(pci(&o[1])));
+                out.push(Ev::Num(handle_value(&h)));
+                handles.push(Some(h));
+            }
+            4 => {
+                let h = t.add_virtio_mmio_iommu(VirtIoMmioIommu::new(n(1)));
+                out.push(Ev::Num(handle_value(&h)));
+                handles.push(Some(h));
+            }
+            _ => panic!("harness: bad viot op"),
+        }
+    }
+}
+
+// ------------------------------------------------------------------ generators
+
+/// (segment bus device function); rarely a device / function the constructor refuses
+fn rand_pci_dev(rng: &mut Rng, strict: bool) -> Sx {
+    let dev = if !strict && rng.chance(1, 80) { rng.range(32, 255) } else { rng.below(32) };
+    let func = if !strict && rng.chance(1, 80) { rng.range(8, 255) } else { rng.below(8) };
+    l(vec![a(rng.val(16)), a(rng.val(8)), a(dev), a(func)])
+}
+
+fn hr(k: usize) -> Sx {
+    l(vec![a(104), a(k as u64)])
+}
+
+/// a random op of the given kind; `iommus` = indices of the earlier translation nodes (non-empty for kinds 1 and 2)
+pub fn rand_op(rng: &mut Rng, kind: u64, iommus: &[usize], strict: bool) -> Sx {
+    match kind {
+        1 => {
+            let f = rand_pci_dev(rng, strict);
+            let t = rand_pci_dev(rng, strict);
+            l(vec![a(1), f, t, hr(*rng.pick(iommus))])
+        }
+        2 => l(vec![a(2), a(rng.val(32)), a(rng.val(64)), hr(*rng.pick(iommus))]),
+        3 => l(vec![a(3), rand_pci_dev(rng, strict)]),
+        _ => l(vec![a(4), a(rng.val(64))]),
+    }
+}
+
+/// a history of the given kinds; an endpoint kind with no earlier translation node cannot be expressed through the
+/// API (it needs a &TranslationHandle) and makes the history infeasible
+fn build(rng: &mut Rng, kinds: &[u64], strict: bool) -> Option<Vec<Sx>> {
+    let mut iommus: Vec<usize> = Vec::new();
+    let mut ops = Vec::new();
+    for (i, k) in kinds.iter().enumerate() {
+        if *k <= 2 && iommus.is_empty() {
+            return None;
+        }
+        ops.push(rand_op(rng, *k, &iommus, strict));
+        if *k >= 3 {
+            iommus.push(i);
+        }
+    }
+    Some(ops)
+}
+
+fn rand_ctor(rng: &mut Rng) -> Sx {
+    l(rand_hdr(rng))
+}
+
+fn emit_ops(rng: &mut Rng, emit: &mut Emit, ops: Vec<Sx>) {
+    let c = rand_ctor(rng);
+    emit.case(19, history(rng, c, ops));
+}
+
+/// ctor, observation, ops; observations every 1000 ops, after each of the ops that bring the table within 100 bytes of
+/// the 16-bit limit, and after each of the last `tail` ops
+fn history_tail(rng: &mut Rng, ops: Vec<Sx>, tail: usize) -> Sx {
+    let n = ops.len();
+    let mut v = vec![rand_ctor(rng), a(1)];
+    let mut size = 48u64;
+    for (i, op) in ops.into_iter().enumerate() {
+        size += if op.list()[0].num() <= 2 { 24 } else { 16 };
+        v.push(op);
+        if i + tail >= n || i % 1000 == 999 || (size + 100 > 65_536 && size < 65_536 + 100) {
+            v.push(a(1));
+        }
+    }
+    l(v)
+}
+
+pub fn gen(tier: &str, rng: &mut Rng, emit: &mut Emit) {
+    let c05 = false; // the C05 oracle now walks each image once: no need for sparser handle ops
+    // empty history
+    for _ in 0..4 {
+        emit_ops(rng, emit, vec![]);
+    }
+    // each translation node kind alone; each endpoint kind behind each translation kind
+    for k in [3u64, 4] {
+        for _ in 0..8 {
+            let ops = build(rng, &[k], false).unwrap();
+            emit_ops(rng, emit, ops);
+        }
+        for e in [1u64, 2] {
+            for _ in 0..8 {
+                let ops = build(rng, &[k, e], false).unwrap();
+                emit_ops(rng, emit, ops);
+            }
+        }
+    }
+    // PCI device boundary values of the asserting constructor, in the three places a PciDevice is taken
+    for (dev, func) in [(0u64, 0u64), (31, 7), (32, 0), (0, 8), (31, 8), (255, 255), (32, 7)] {
+        let bad = l(vec![a(rng.val(16)), a(rng.val(8)), a(dev), a(func)]);
+        let good = rand_pci_dev(rng, true);
+        emit_ops(rng, emit, vec![l(vec![a(3), bad.clone()])]);
+        let io = l(vec![a(4), a(rng.val(64))]);
+        emit_ops(rng, emit, vec![io.clone(), l(vec![a(1), bad.clone(), good.clone(), hr(0)])]);
+        emit_ops(rng, emit, vec![io, l(vec![a(1), good, bad, hr(0)])]);
+    }
+    // every field of the BDF at its extremes
+    for (bus, dev, func) in [(0u64, 0u64, 0u64), (255, 31, 7), (255, 0, 0), (0, 31, 0), (0, 0, 7), (1, 1, 1), (128, 16, 4)] {
+        let d = l(vec![a(rng.val(16)), a(bus), a(dev), a(func)]);
+        let e = l(vec![a(rng.val(16)), a(255 - bus), a(31 - dev), a(7 - func)]);
+        emit_ops(rng, emit, vec![l(vec![a(3), d.clone()]), l(vec![a(1), d, e, hr(0)])]);
+    }
+    // all interleavings of the 4 node kinds for histories of length <= 4 (those the API can express)
+    for len in 1..=4u32 {
+        for code in 0..4u64.pow(len) {
+            let mut kinds = Vec::new();
+            let mut c = code;
+            for _ in 0..len {
+                kinds.push(c % 4 + 1);
+                c /= 4;
+            }
+            if let Some(ops) = build(rng, &kinds, true) {
+                emit_ops(rng, emit, ops);
+            }
+        }
+    }
+    // homogeneous runs of 300 entries of each kind (count 255 -> 256); endpoints behind one translation node
+    for k in 1..=4u64 {
+        let mut kinds = vec![k; 300];
+        if k <= 2 {
+            kinds[0] = 3 + (k - 1);
+        } else if c05 {
+            // the C05 oracle re-walks the image for every handle returned so far: keep the handle-returning ops sparse
+            for (i, x) in kinds.iter_mut().enumerate() {
+                if i % 30 != 0 {
+                    *x = 1 + (i as u64 % 2);
+                }
+            }
+        }
+        let ops = build(rng, &kinds, true).unwrap();
+        emit_ops(rng, emit, ops);
+    }
+    // runs approaching and crossing the 16-bit offset limit (65535 -> 65536 bytes): the table refuses to outgrow it
+    {
+        let mut kinds = vec![2u64; 2740]; // 48 + 16 + 24 * 2728 = 65536 + ...
+        kinds[0] = 4;
+        let ops = build(rng, &kinds, true).unwrap();
+        emit_ops(rng, emit, ops);
+    }
+    if !c05 {
+        let kinds = vec![4u64; 4100]; // 48 + 16 * 4093 = 65536
+        let ops = build(rng, &kinds, true).unwrap();
+        emit_ops(rng, emit, ops);
+    }
+    // random mixed histories, endpoints referring to random earlier translation nodes
+    let n = if tier == "thorough" { 3000 } else { 200 };
+    for _ in 0..n {
+        let len = match rng.below(3) {
+            0 => rng.range(1, 6),
+            1 => rng.range(1, 24),
+            _ => rng.range(25, 120),
+        };
+        let mut kinds: Vec<u64> = (0..len).map(|_| rng.range(1, 4)).collect();
+        if kinds[0] <= 2 {
+            kinds[0] += 2;
+        }
+        let ops = build(rng, &kinds, false).unwrap();
+        emit_ops(rng, emit, ops);
+    }
+}
+
+/// C18: histories whose total size reaches the 16-bit offset limit (SPEC_NOTES section D, viot.rs):
+/// 48 + 16 a + 24 b = 65528 (largest table below 2^16), 65536, 65544, 65552 and beyond
+pub fn gen18(_tier: &str, rng: &mut Rng, emit: &mut Emit) {
+    // (a translation nodes of 16 bytes, then b endpoints of 24 bytes)
+    for (na, nb) in [(4091usize, 1usize), (4092, 0), (4093, 0), (4092, 1), (4094, 0), (4100, 0), (1, 2727), (1, 2728), (1, 2729), (1, 2740), (2000, 1394), (2000, 1395), (2000, 1400)] {
+        let mut kinds: Vec<u64> = (0..na).map(|i| 3 + (i as u64 % 2)).collect();
+        kinds.extend((0..nb).map(|i| 1 + (i as u64 % 2)));
+        let ops = build(rng, &kinds, true).unwrap();
+        let h = history_tail(rng, ops, 4);
+        emit.case(19, h);
+    }
+    // mixed order, endpoints interleaved with the translation nodes they refer to
+    for total in [2730usize, 3000, 3500, 4096] {
+        let mut kinds: Vec<u64> = (0..total).map(|_| rng.range(1, 4)).collect();
+        kinds[0] = 3;
+        let ops = build(rng, &kinds, true).unwrap();
+        let h = history_tail(rng, ops, 3);
+        emit.case(19, h);
+    }
+}
